@@ -186,10 +186,11 @@ func genSentinel(seed uint64, tier, variant string) any {
 		p.Opt.ConnLifetimeMs = pick(r, 60, 150, 400, 1000)
 		p.Opt.AlwaysPipelining = r.IntN(4) != 0
 		p.Sched.TickWeight = pick(r, 0.05, 0.2, 0.6)
+		p.Sched.CutProb = pick(r, 0.3, 0.7, 1.0)
 		// a server that answers slowly around the end of a lifetime: the client closes an expired connection only after
 		// a grace period of one second, calls outstanding longer than that are cut off
-		for i, n := 0, 1+r.IntN(4); i < n; i++ {
-			p.Faults = append(p.Faults, FaultSpec{Kind: "slow", AtStep: r.IntN(200), NeedInflight: true, Pick: r.IntN(6), DurMs: pick(r, 1100, 1500, 2500)})
+		for i, n := 0, 2+r.IntN(6); i < n; i++ {
+			p.Faults = append(p.Faults, FaultSpec{Kind: "slow", AtStep: r.IntN(250), NeedInflight: true, Pick: r.IntN(6), DurMs: pick(r, 1100, 1500, 2500)})
 		}
 		for ti := range p.Tasks {
 			for ci, n := len(p.Tasks[ti]), len(p.Tasks[ti])+1+r.IntN(3); ci < n; ci++ {
@@ -211,7 +212,7 @@ func genSentinel(seed uint64, tier, variant string) any {
 					}
 					c.Cmds = append(c.Cmds, CmdSpec{Argv: []string{"EXEC"}})
 				}
-				for m := 1 + r.IntN(3); m > 0; m-- {
+				for m := 2 + r.IntN(4); m > 0; m-- {
 					if r.IntN(4) == 0 {
 						c.Cmds = append(c.Cmds, CmdSpec{Argv: []string{"VTAG", uid(k), "s"}, Flag: "ro"})
 					} else {
